@@ -61,6 +61,7 @@ def run(ctx):
     hexlayout(ctx)
     layout(ctx)
     hsl_writeset(ctx)
+    hsl_percent_range(ctx)
     converters(ctx)
     hue_units(ctx)
     clamps(ctx)
@@ -826,6 +827,36 @@ def clamps(ctx):
 
 def _values_hook(alg, node):
     return None
+
+
+def hsl_percent_range(ctx):
+    """CSS Color: the saturation and lightness of hsl() are percentages clamped to 0%..100% - on both sides - before the
+    conversion.  (crimp() afterwards clamps the three channels, which is a different colour: hsl(120,-50%,50%) is the grey
+    #808080, not what the formula gives for s = -0.5.)"""
+    from ..flow import value_range
+
+    pfn = ctx.fn("Color.parse_color_hsl", "R13.7")
+    calls = [c for c in ast.walk(pfn) if call_name(c) == "Color.hsl_to_int"]
+    ctx.need(len(calls) == 1, "R13.7", "parse_color_hsl: hsl_to_int call not found")
+    callee = ctx.fn("Color.hsl_to_int", "R13.7")
+    cparams = [a.arg for a in callee.args.args]
+    for idx, what in ((1, "saturation"), (2, "lightness")):
+        a = calls[0].args[idx] if len(calls[0].args) > idx else None
+        ctx.need(a is not None, "R13.7", "parse_color_hsl: %s not passed positionally" % what)
+        if isinstance(a, ast.Name):
+            lo, hi = value_range(pfn, a.id, before=calls[0])
+        else:
+            lo, hi = value_range(ast.FunctionDef(name="_", args=pfn.args, body=[ast.Assign(targets=[ast.Name(id="__v", ctx=ast.Store())], value=a, lineno=1)], decorator_list=[], lineno=0), "__v")
+        # or clamped on entry of the conversion
+        first_use = None
+        for n in ast.walk(callee):
+            if isinstance(n, ast.BinOp) and any(isinstance(x, ast.Name) and x.id == cparams[idx] for x in ast.walk(n)):
+                first_use = n if first_use is None or n.lineno < first_use.lineno else first_use
+        lo2, hi2 = value_range(callee, cparams[idx], before=first_use) if first_use is not None else (float("-inf"), float("inf"))
+        if (lo2, hi2) != (float("-inf"), float("inf")) and cparams[idx] in {t.id for t in ast.walk(callee) if isinstance(t, ast.Name) and isinstance(t.ctx, ast.Store)}:
+            lo, hi = max(lo, lo2), min(hi, hi2)
+        ctx.ob("R13.7", "Color.parse_color_hsl[%s range]" % what, (lo, hi) == (0.0, 1.0), "reaches the conversion confined to [%s, %s]" % (lo, hi), calls[0].lineno,
+               "hsl() %s is a percentage clamped to 0%%..100%% on both sides before the conversion" % what)
 
 
 # ----------------------------------------------------------------------------- R13.8
